@@ -385,6 +385,21 @@ class Flow:
             self.assign(tg.value, ty, vals, node)
 
     def bind_iter(self, target: ast.AST, ity: Optional[Ty], ivals: Set[AV], iter_node: ast.AST):
+        # for a, b in zip(X, Y)  /  for i, (a, b) in enumerate(zip(X, Y)): each target takes the elements of its own argument
+        # (tuples are value-merged in this analysis, which would alias a with Y's elements and b with X's)
+        zc, ztarget = None, None
+        if isinstance(iter_node, ast.Call) and dotted(iter_node.func) == "zip":
+            zc, ztarget = iter_node, target
+        elif isinstance(iter_node, ast.Call) and dotted(iter_node.func) == "enumerate" and iter_node.args and isinstance(iter_node.args[0], ast.Call) \
+                and dotted(iter_node.args[0].func) == "zip" and isinstance(target, (ast.Tuple, ast.List)) and len(target.elts) == 2:
+            zc, ztarget = iter_node.args[0], target.elts[1]
+            self.assign(target.elts[0], T_INT, set(), iter_node)
+        if zc is not None and isinstance(ztarget, (ast.Tuple, ast.List)) and len(ztarget.elts) == len(zc.args) and not zc.keywords and \
+                not any(isinstance(a, ast.Starred) for a in zc.args):
+            for te, arg in zip(ztarget.elts, zc.args):
+                at, av = self.type_at(arg), self.vals_at(arg)
+                self.bind_iter(te, at, av, arg)
+            return
         et = None
         if ity is not None:
             if ity.name in self.model.classes:
